@@ -182,7 +182,7 @@ package server
 //@   props C18
 //@   requires e != nil && e.metaStoreFactory != nil
 // only what is handed to the logger matters here: the task helpers are treated as unknown calls
-//@   opaque pauseTaskWithReason getTaskUniqueIDFromInfo
+//@   opaque pauseTaskWithReason getTaskUniqueIDFromInfo startInternal
 //@   loop 1 invariant true
 
 // ---- C19 / C10: the duplicate-detection bookkeeping ------------------------------------------------------------
